@@ -44,6 +44,9 @@ def mk_arg(kind, tag, pty):
     if kind in ('IntSmall', 'IntBig', 'Rational', 'Float'):
         S = SymNum(kind, tag); return Adt('Obj', 'Num', [S.obj()]), S.pre, [S]
     if kind == 'str': return Adt('Obj', 'Seq', [Adt('Seq', 'String', [RcV(RcObj(Seq([z3.IntVal(97), z3.IntVal(98)])))])]), [], []
+    if kind == 'chr1':          # a one-character string whose character is any Unicode scalar value (only used where the code works on chars, not byte offsets)
+        c = z3.Int('c' + tag)
+        return Adt('Obj', 'Seq', [Adt('Seq', 'String', [RcV(RcObj(Seq([c])))])]), [z3.Or(z3.And(c >= 0, c < 0xD800), z3.And(c >= 0xE000, c <= 0x10FFFF))], [('chr', c)]
     S = SymNum('IntSmall', tag)
     if kind == 'list': return Adt('Obj', 'Seq', [Adt('Seq', 'List', [RcV(RcObj(Seq([Adt('Obj', 'Num', [S.obj()])])))])]), S.pre, [S]
     if kind == 'elist': return Adt('Obj', 'Seq', [Adt('Seq', 'List', [RcV(RcObj(Seq([])))])]), [], []
@@ -57,6 +60,7 @@ def render(kind, syms, model):
     if kind == 'str': return '"ab"'
     if kind == 'elist': return '[]'
     if kind == 'bytes': return 'B[7]'
+    if kind == 'chr1': return f'chr({mval(model, syms[0][1])})'
     c = syms[0].concrete(model)
     if c is None: return None
     l = lit(c)
@@ -102,7 +106,8 @@ def shape_builtin(item, ob):
         for pc, kd, res, lg in paths:
             ob.paths += 1
             if kd in ('missing', 'fuel'): reasons.add(str(res).split('  argtys')[0][:120]); ok_combo = False; continue
-            pref = prefer_all(*[s for ss in allsyms for s in ss]) if any(allsyms) else ()
+            nums_ = [s for ss in allsyms for s in ss if not isinstance(s, tuple)]
+            pref = prefer_all(*nums_) if nums_ else ()
             if kd == 'panic':
                 panics += 1
                 ob.panic(f'builtin {name}{combo}: {str(res)[:80]}', pc, res, replay=replay, cls=f'C14/builtin {name}/panic', prefer=pref)
@@ -111,6 +116,64 @@ def shape_builtin(item, ob):
                 ob.check(f'builtin {name}{combo} returns a value or an error', pc, z3.BoolVal(isinstance(res, Adt)), replay=replay, cls=f'C14/builtin {name}/result', sample='Ok(value) / Err(error) — no unwinding')
         if ok_combo: encoded += 1
     ob.extra = {'builtin': name, 'combos_tried': len(combos), 'combos_encoded': encoded, 'not_encoded_reasons': sorted(reasons)[:4], 'panic_paths': panics}
+    ob.absorb_engine(E)
+
+_STRUCTS = None
+def struct_builtins():
+    """unit structs that implement Builtin in lib.rs -> {struct name: surface name}"""
+    global _STRUCTS
+    if _STRUCTS is None:
+        src = open(os.path.join(REPO, 'src', 'lib.rs')).read(); _STRUCTS = {}
+        units = set(re.findall(r'^struct (\w+);', src, re.M))
+        for m in re.finditer(r'^impl Builtin for (\w+) \{(.*?)^\}', src, re.M | re.S):
+            nm = re.search(r'fn builtin_name\(&self\) -> &str \{\s*"((?:[^"\\]|\\.)*)"', m.group(2))
+            if m.group(1) in units and nm: _STRUCTS[m.group(1)] = nm.group(1)
+    return _STRUCTS
+def shape_struct(item, ob):
+    """`<S as Builtin>::run(&S, env, vec![args])` for a unit struct S: panic reachability over kind tuples (a builtin that calls back into the
+    evaluator through the environment ends in a missing model for that tuple, which is listed, not hidden)"""
+    sname, combos = item
+    from props import evalh
+    E = new_engine(MIR, [extra_models, evalh.eval_models]); surface = struct_builtins()[sname]
+    fs = [f for f in E.by_last.get('run', []) if len(f.params) == 3 and f.params[0][1].strip() in ('&' + sname, '&lib::' + sname)]
+    if len(fs) != 1: raise Missing(f'run of struct builtin {sname} not found uniquely')
+    f = fs[0]; encoded = 0; reasons = set(); panics = 0; timeouts = 0
+    def on_alarm(*_): raise _TO()
+    for combo in combos:
+        made = [mk_arg(k, f'x{i}', 'core::Obj') for i, k in enumerate(combo)]
+        def run(combo=combo):
+            fresh = [mk_arg(k, f'x{i}', 'core::Obj') for i, k in enumerate(combo)]
+            for m in fresh: E.assume(*m[1])
+            return E.run_fn(f, [Ref(Cell(Adt(sname, None, []))), Ref(Cell(evalh.top_env({}, builtins=()))), Seq([m[0] for m in fresh])])
+        old = signal.signal(signal.SIGALRM, on_alarm); signal.alarm(20)
+        try: paths = E.explore(run, max_paths=300)
+        except (_TO, Fuel):
+            reasons.add('path explosion / time limit'); timeouts += 1
+            if timeouts >= 2: break
+            continue
+        except Missing as e: reasons.add(str(e)[:120]); continue
+        except Exception as e: reasons.add('encoder limitation: ' + repr(e)[:100]); continue
+        finally: signal.alarm(0); signal.signal(signal.SIGALRM, old)
+        allsyms = [m[2] for m in made]
+        def replay(model, combo=combo, allsyms=allsyms):
+            ls = [render(k, s_, model) for k, s_ in zip(combo, allsyms)]
+            if any(l is None for l in ls): return None
+            call = f'{surface}({", ".join(ls)})' if re.fullmatch(r"[A-Za-z_][A-Za-z0-9_?']*", surface) else (f'({ls[0]}) {surface} ({ls[1]})' if len(ls) == 2 else None)
+            if call is None: return None
+            return {'program': f'try ({call}) catch e -> "caught"', 'expect': {'not_panic': 1}}
+        ok_combo = True
+        for pc, kd, res, lg in paths:
+            ob.paths += 1
+            if kd in ('missing', 'fuel'): reasons.add(str(res).split('  argtys')[0][:120]); ok_combo = False; continue
+            nums_ = [s_ for ss in allsyms for s_ in ss if not isinstance(s_, tuple)]
+            pref = prefer_all(*nums_) if nums_ else ()
+            if kd == 'panic':
+                panics += 1
+                ob.panic(f'struct builtin {surface}{combo}: {str(res)[:80]}', pc, res, replay=replay, cls=f'C14/struct builtin {surface}/panic', prefer=pref)
+            else:
+                ob.check(f'struct builtin {surface}{combo} returns a value or an error', pc, z3.BoolVal(isinstance(res, Adt)), replay=replay, cls=f'C14/struct builtin {surface}/result', sample='Ok(value) / Err(error) — no unwinding')
+        if ok_combo: encoded += 1
+    ob.extra = {'builtin': f'{surface} (struct {sname})', 'combos_tried': len(combos), 'combos_encoded': encoded, 'not_encoded_reasons': sorted(reasons)[:4], 'panic_paths': panics}
     ob.absorb_engine(E)
 
 def shape_site(item, ob):
@@ -143,7 +206,7 @@ def shape_string_assign(item, ob):
 
 def run_shape(item, ob):
     fam, payload = item
-    {'builtin': shape_builtin, 'site': shape_site, 'string_assign': shape_string_assign}[fam](payload, ob)
+    {'builtin': shape_builtin, 'struct': shape_struct, 'site': shape_site, 'string_assign': shape_string_assign}[fam](payload, ob)
 
 def main(tier, seed, t0):
     global MIR
@@ -166,6 +229,15 @@ def main(tier, seed, t0):
             rest_ = [c for c in combos if c not in homog]
             combos = homog + rnd.sample(rest_, max(0, min(len(rest_), cap - len(homog))))
         items.append(('builtin', (name, combos)))
+    # struct-implemented builtins (unit structs): 1 and 2 arguments over the kinds plus one-character strings with a symbolic character
+    SK = KINDS + ('chr1',)
+    for sname in sorted(struct_builtins()):
+        if struct_builtins()[sname] in SKIP_NAMES: continue
+        c1 = [(k,) for k in SK]
+        homog = [(k, k) for k in SK] + [('IntSmall', 'IntBig'), ('IntBig', 'IntSmall'), ('str', 'chr1'), ('list', 'IntSmall'), ('IntSmall', 'list'), ('list', 'elist'), ('str', 'IntSmall')]
+        more = [c for c in itertools.product(SK, SK) if c not in homog]
+        c2 = homog + rnd.sample(more, 6 if tier == 'quick' else 40)
+        items.append(('struct', (sname, c1 + c2)))
     merged, per = pmap(run_shape, items, tier)
     extras = [e for e in merged.get('extra', []) if e]
     enc = [e for e in extras if e.get('combos_encoded', 0) > 0]
@@ -174,7 +246,7 @@ def main(tier, seed, t0):
         kernels=['lib.rs: builtin closures registered with `name: .., body: |..|` in initialize (OneArgBuiltin, TwoArgBuiltin, OneNumBuiltin, TwoNumsBuiltin, TwoNumsToNumsBuiltin ...)', 'eval.rs: set_index slice arms'],
         bounds={'arguments': 'kinds null / int Small / int Big / rational / float / string "ab" / one-element list / empty list / one-element vector / bytes / one-entry dict; numeric values symbolic (unbounded)',
                 'combinations': 'all kinds for 1-argument builtins; a VERIF_SEED sample of kind tuples for 2- and 3-argument builtins', 'per builtin': '20 s / 400 paths, otherwise listed as not encoded'},
-        outside=['builtins that need the environment, I/O, clock, randomness or processes (excluded by the property or by signature)', 'builtins listed under not_encoded (reason given)', 'hangs other than fuel exhaustion',
+        outside=['builtins that need the environment, I/O, clock, randomness or processes (excluded by the property or by signature)', 'struct builtins with fields (ComparisonOperator, Extremum, Group, the *Builtin wrappers are reached through their registrations) and struct-builtin kind tuples that call back into the evaluator (listed with the missing model)', 'builtins listed under not_encoded (reason given)', 'hangs other than fuel exhaustion',
                  'the panic obligations of the kernels of C01-C12/C15/C16 are discharged in those checks'],
         assumptions=['error constructors (NErr::*) are opaque: formatting of error messages is not executed', 'std/num contracts of the model table incl. their documented panics'],
         extra_cov={'builtins_total_with_closure_body': total, 'builtins_skipped_by_signature': len(skipped_sig), 'builtins_with_encoded_combinations': len(enc),
